@@ -6,7 +6,6 @@ cdef cython.uint DNS_COMPRESSION_HEADER_LEN
 cdef cython.uint MAX_DNS_LABELS
 cdef cython.uint DNS_COMPRESSION_POINTER_LEN
 cdef cython.uint MAX_NAME_LENGTH
-cdef cython.uint MAX_LABEL_LENGTH
 
 cdef cython.uint _TYPE_A
 cdef cython.uint _TYPE_CNAME
